@@ -210,7 +210,45 @@ def _find_lcas(
             results.append((dt, cmt))
     results.sort(key=lambda x: x[0])
     lcas = [cmt for dt, cmt in results]
+    if len(lcas) > 1:
+        lcas = _remove_redundant(lookup_parents, lcas, shallows)
     return lcas
+
+
+def _remove_redundant(
+    lookup_parents: Callable[[ObjectID], list[ObjectID]],
+    cands: list[ObjectID],
+    shallows: set[ObjectID] | None = None,
+) -> list[ObjectID]:
+    """Drop candidates that are ancestors of another candidate.
+
+    The commit-time ordered walk in _find_lcas can stop before a common
+    ancestor that was reached early (equal or skewed commit times) has been
+    marked as reachable from a better candidate, like git's
+    paint_down_to_common(); git cleans this up in remove_redundant().
+    """
+    cand_set = set(cands)
+    redundant: set[ObjectID] = set()
+    for cand in cands:
+        if cand in redundant:
+            continue
+        seen = {cand}
+        todo = [cand]
+        while todo and len(redundant) < len(cands) - 1:
+            try:
+                parents = lookup_parents(todo.pop())
+            except KeyError:
+                if shallows is not None and shallows:
+                    continue
+                raise
+            for parent in parents:
+                if parent in seen:
+                    continue
+                seen.add(parent)
+                if parent in cand_set:
+                    redundant.add(parent)
+                todo.append(parent)
+    return [cand for cand in cands if cand not in redundant]
 
 
 # actual git sorts these based on commit times
